@@ -1,5 +1,6 @@
 import Imdlv.Model.Summary
 import Imdlv.Props.C04
+import Imdlv.Lemmas.LoadRoundTrip
 /-!
 # C07 — `torrent show` reports what the file says
 
@@ -68,6 +69,25 @@ theorem infohash_of_span (urlOk : Bytes → Bool) (b : Bytes) (m : MetainfoM) (s
 /- Path versus standard input: in the model the report is a function of the bytes alone by
 construction, so there is nothing to prove here; that the implementation reads the same bytes
 from both sources is established by the correspondence check (every case is run both ways). -/
+
+/-! ## what `create` wrote is what `show` loads -/
+
+/-- **Loading what was written**: for every typed metainfo value `m` whose strings are text where
+serde demands text, whose digests, piece string and integers are in range, whose update URL the
+URL parser accepts and whose nodes the host parser accepts (`MetainfoM.Typed`), whose paths are
+within the component limit and whose lengths sum within `u64`: the loader accepts `m`'s
+serialisation, returns exactly `m` — so every reported field is the field that was written — and
+the span it hashes is the encoding of `m`'s info dictionary. Composes C05 (`createMetainfo` is
+such an `m`) with this property. -/
+theorem load_written (urlOk : Bytes → Bool) (m : MetainfoM) (h : m.Typed urlOk)
+    (hpaths : pathsOk m.info.mode = true) (s : Nat) (hsize : contentSize? m.info.mode = some s) :
+    loadTorrent urlOk m.serialize = .ok m (Bencode.encode m.info.toBVal) :=
+  Metainfo.load_serialize urlOk m h hpaths s hsize
+
+/-- … in particular the typed reader alone (what `verify` and `link` start from), with anything after the file's value -/
+theorem read_written (urlOk : Bytes → Bool) (m : MetainfoM) (h : m.Typed urlOk) (r : Bytes) :
+    readMetainfo urlOk (m.serialize ++ r) = some (some m) :=
+  Metainfo.readMetainfo_serialize urlOk m h r
 
 /-! ## tab-delimited form is readable back -/
 
